@@ -1,7 +1,7 @@
 """C17 - Encrypted assertions stay confidential and are validated like plain ones."""
 import ast
 
-from ..match import facts, Q
+from ..match import facts, Q, just, result_reaches
 from ..srcmodel import attr_chain, call_name, unparse, norm_text, walk_no_nested
 from ..cfg import cfg_of, raised_class
 from ..dataflow import Origins
@@ -268,8 +268,8 @@ def r4_same_gate(run):
                          for vc in vcalls)]
             wit = unguarded_path(
                 cfg, cfg.entry, [nd.id], [l.id for l in loops],
-                lambda e, p: unparse(e) == "self.response.assertion" and
-                p is False) if loops else [cfg.entry]
+                just(cfg, ("self.response.assertion", False))) \
+                if loops else [cfg.entry]
             # inside the checking loop a falsy result stops everything
             for vc in vcalls:
                 tn = [t for t in cfg.by_kind("test")
@@ -293,10 +293,9 @@ def r4_same_gate(run):
     da = m.func("response.AuthnResponse.decrypt_assertions")
     dcfg = cfg_of(da, m)
     for nd, c in dcfg.call_nodes("check_signature"):
-        ok = nd.kind == "test" and isinstance(nd.ast, ast.UnaryOp)
-        if ok:
-            bad = [b for b in dcfg.succ[nd.id] if dcfg.nodes[b].kind == "true"]
-            ok = bad and all(only_raises_from(dcfg, b) for b in bad)
+        excs = [x.id for x in dcfg.nodes if x.kind == "exc"]
+        ok = result_reaches(dcfg, nd.id, c, [dcfg.return_exit], "F",
+                            avoid=excs) is None
         run.check(ok, "R4", da.qual + "::falsy-check=>raise",
                   "a falsy signature check result raises",
                   "a falsy check_signature result is ignored", da.loc(c))
